@@ -620,7 +620,7 @@ pub fn gen_sched(rng: &mut Rng, tier: Tier) -> Scenario {
         }
         threads.push(ops);
     }
-    if rng.chance(1, 3) {
+    if rng.chance(1, 2) {
         sc.set("poker", 1);
         let mut ops = vec![];
         for _ in 0..rng.range(1, 5) {
